@@ -107,7 +107,17 @@ def wmw_force_stale(ctx, prog):
 
 wmw_force_stale.rule_id = "C17.WMW-force-stale"
 
-RULES = [guard_full, wmc_user, pair, unequal_row, wmw_force_stale]
+def sib_merge_cmp(ctx, prog):
+    """incr_merge calls the user function once per key: the two diff streams are merged by the plain key comparison,
+    so a key changed on both sides is one `Both` element (C18.SIB-folds, reported here too)."""
+    from .engine import run_relabelled
+    from .c18 import folds as f
+    run_relabelled(ctx, prog, f, "C18.SIB-folds", "C17.SIB-merge-cmp")
+
+
+sib_merge_cmp.rule_id = "C17.SIB-merge-cmp"
+
+RULES = [guard_full, wmc_user, pair, unequal_row, wmw_force_stale, sib_merge_cmp]
 
 # control signature of the bookkeeping effects this property depends on (rules/ctrlsig.py)
 from .ctrlsig import make_rule as _ctrl_rule  # noqa: E402
